@@ -224,7 +224,7 @@ def u2u3(fb, chk, defs):
         if wk != kind:
             probs.append("uses wrapper %s (%s); the request's direction needs '%s'" % (c["name"], wk, kind))
         if cty and len(t["atys"]) > 2:
-            aty = t["atys"][2]
+            aty = _concrete_aty(f, m.sym, t, 2)
             if cty not in aty and not (cty in ("vhost_memory",) and "char" in aty) \
                     and not (cty == "vhost_vdpa_config" and "vhost_vdpa_config" in aty):
                 probs.append("argument type %s, UAPI type %s" % (aty, cty))
@@ -239,6 +239,9 @@ def u2u3(fb, chk, defs):
         # `ioctl_result(ret, ..)?; ...; Ok(v)`: the error is the ioctl's (re-raised by `?`), success is returned only after
         # ioctl_result reported success
         reraised = [a for a in alts if a[0] == "from_residual" and any(_is_ir(s) for s in subterms(a))]
+        # `ioctl_result(ret, v).map(|v| ..)`: the Err arm passes the ioctl's error on unchanged
+        reraised += [a for a in alts if a[0] == "agg" and a[2] == "Err" and len(a[3]) == 1 and a[3][0][1][0] == "field"
+                     and a[3][0][1][1][0] == "down" and a[3][0][1][1][2] == "Err" and _is_ir(a[3][0][1][1][1])]
         if reraised and not good:
             dflt = m.sym.defs.get(0, [])
             ok_after = False
@@ -340,8 +343,78 @@ def u2u3(fb, chk, defs):
                     if op["pl"]["p"] or len(ds) != 1 or ds[0][0] != "assign" or ds[0][3]["k"] != "use":
                         break
                     op = ds[0][3]["op"]
+            if not ok:
+                # `ioctl_result(ret, L).map(|v| v.field)`: the whole struct goes through ioctl_result, the field is taken from
+                # its Ok payload
+                whole = False
+                for rb, rt, rc in sites(f, name="ioctl_result"):
+                    op = rt["args"][1]
+                    for _ in range(4):
+                        if op["k"] not in ("copy", "move"):
+                            break
+                        if op["pl"]["l"] == passed and not op["pl"]["p"]:
+                            whole = True
+                            break
+                        ds = m.sym.defs.get(op["pl"]["l"], [])
+                        if op["pl"]["p"] or len(ds) != 1 or ds[0][0] != "assign" or ds[0][3]["k"] != "use":
+                            break
+                        op = ds[0][3]["op"]
+                ret_ = m.sym.local(0)
+                for a_ in (ret_[2] if ret_[0] == "phi" else [ret_]):
+                    if whole and a_[0] == "agg" and a_[2] == "Ok" and len(a_[3]) == 1:
+                        v_ = a_[3][0][1]
+                        if v_[0] == "field" and v_[2] == want and any(s_[0] == "call" and s_[1] == "ioctl_result" for s_ in subterms(v_)):
+                            ok = True
             chk.check(ok, "U3", key + ":result", "returns .%s of the struct the kernel wrote" % want,
                       "%s does not return field %s of the struct passed to the kernel" % (f.short, want), f.loc())
+
+
+def _concrete_aty(f, sym, t, idx):
+    """Type of call argument `idx`; when the call sits in an expanded generic helper (`&T`), the type of the caller's value
+    that was passed down."""
+    import re as _re
+    aty = t["atys"][idx]
+    if not _re.match(r"^&?(mut )?[A-Z][A-Za-z0-9]?$", aty.strip()):
+        return aty
+    op = t["args"][idx]
+    for _ in range(8):
+        if op["k"] not in ("copy", "move") or op["pl"]["p"]:
+            break
+        l = op["pl"]["l"]
+        ty = f.locals[l].get("ty") or ""
+        if not _re.match(r"^&?(mut )?[A-Z][A-Za-z0-9]?$", ty.strip()) and ty not in ("?", "&?", ""):
+            return ty
+        ds = sym.defs.get(l, [])
+        if len(ds) != 1 or ds[0][0] != "assign":
+            break
+        rv = ds[0][3]
+        if rv["k"] == "use":
+            op = rv["op"]
+        elif rv["k"] in ("ref", "rawptr") and [x["k"] for x in rv["pl"]["p"]] == ["deref"]:
+            op = {"k": "copy", "pl": {"l": rv["pl"]["l"], "p": []}}      # reborrow of a reference local
+        elif rv["k"] in ("ref", "rawptr") and not rv["pl"]["p"]:
+            ty = f.locals[rv["pl"]["l"]].get("ty") or ""
+            if not _re.match(r"^[A-Z][A-Za-z0-9]?$", ty.strip()) and ty not in ("?", ""):
+                return "&" + ty
+            # a by-value generic parameter of the expanded helper: the type of what was moved into it
+            l2 = rv["pl"]["l"]
+            for _h in range(4):
+                d2 = sym.defs.get(l2, [])
+                if len(d2) != 1 or d2[0][0] != "assign" or d2[0][3]["k"] != "use":
+                    break
+                o2 = d2[0][3]["op"]
+                if o2["k"] == "const":
+                    return "&" + (o2.get("ty") or "?")
+                if o2["pl"]["p"]:
+                    break
+                l2 = o2["pl"]["l"]
+                ty2 = f.locals[l2].get("ty") or ""
+                if not _re.match(r"^[A-Z][A-Za-z0-9]?$", ty2.strip()) and ty2 not in ("?", ""):
+                    return "&" + ty2
+            op = {"k": "copy", "pl": rv["pl"]}
+        else:
+            break
+    return aty
 
 
 def _borrowed_local(sym, op):
@@ -660,8 +733,25 @@ def u5(fb, chk):
             chk.bad("U5", "is_valid:%s" % who, "cannot decide the validator's paths (undecided results: %d, accepting: %d)" % (len(und), len(acc)), f.loc())
             continue
         need = {"size<=max": 0, "size!=0": 0, "pow2": 0, "log": 0}
+        if who == "default":
+            # the kernel backends: each ring part [addr, addr + len) lies in guest memory, len by the virtio layout
+            need.update({"desc-range": 0, "avail-range": 0, "used-range": 0})
         for o in acc:
             got = set()
+            for a in o.atoms:
+                if a[0] == "true" and a[1][0] == "call" and a[1][1] == "address_in_range":
+                    for s_ in subterms(a[1]):
+                        if s_[0] == "call" and s_[1] == "checked_add" and len(s_[2]) == 2:
+                            fld = None
+                            for x in subterms(s_[2][0]):
+                                if x[0] == "field" and x[2] in RING_PARTS:
+                                    fld = x[2]
+                            qs = [x for x in subterms(s_[2][1]) if x[0] == "field" and x[2] == "queue_size"]
+                            if fld and qs:
+                                part, mul, base = RING_PARTS[fld]
+                                vals = [const_eval(fb, sym, s_[2][1], env={qs[0]: q, ("deref", qs[0]): q}) for q in (1, 3, 256)]
+                                if vals == [base + mul * q for q in (1, 3, 256)]:
+                                    got.add(part)
             for a in o.atoms:
                 if a[0] == "cmp":
                     la, lb = _fname(a[2]), _fname(a[3])
@@ -696,6 +786,9 @@ def u5(fb, chk):
                       "all %d accepting paths carry the test" % len(acc),
                       "is_valid (%s) accepts a ring configuration on %d of %d paths without testing `%s`"
                       % (who, len(acc) - cnt, len(acc), k), f.loc())
+
+
+RING_PARTS = {"desc_table_addr": ("desc-range", 16, 0), "avail_ring_addr": ("avail-range", 2, 6), "used_ring_addr": ("used-range", 8, 6)}
 
 
 def _fname(t):
